@@ -236,3 +236,159 @@ def special_c15(tier, seed, replay):
 
 
 SPECIAL["C15"] = special_c15
+
+
+# ------------------------------------------------------------------------------------------ C20
+import concurrent.futures as cf
+
+
+def c20_cells(tier, seed):
+    """the required cells come from the Lean model (`matrix` op of the driver); every cell is multiplied by
+    AlignAs on/off and the three allocator kinds"""
+    ok, _ = runner.build_lean()
+    if not ok:
+        return None
+    m = subprocess.run([runner.DRIVER], input="matrix\n", stdout=subprocess.PIPE, text=True)
+    base = [l.split()[1:] for l in m.stdout.split("\n") if l.startswith("cell ")]
+    cells = []
+    rng = random.Random(seed * 86028121 + 20)
+    for (op, cat, val) in base:
+        variants = [(al, a) for al in ("false", "true") for a in ("StdAlloc", "Pmr", "Stateful")]
+        if tier == "quick":
+            # every required cell once, with one of the six (AlignAs, allocator) variants, rotating deterministically
+            variants = [variants[(hash((op, cat, val)) + seed) % 6 if False else (len(cells) + seed) % 6]]
+        for (al, a) in variants:
+            cells.append((op, cat, val, al, a))
+    return cells
+
+
+def special_c20(tier, seed, replay):
+    res = {"violations": [], "known": [], "coverage": {}}
+    cells = c20_cells(tier, seed)
+    if replay:
+        rp = json.load(open(replay))
+        cells = [tuple(c) for c in rp["detail"].get("cells", [])] or cells
+    if cells is None:
+        path = write_replay_special("C20", tier, seed, "no-failing-input-found", [], {"broken": "lean model does not build"})
+        res["violations"].append((path, " no-failing-input-found"))
+        return res
+    sh_ = runner.source_hash()
+    d = os.path.join(runner.CACHE, "m", sh_)
+    os.makedirs(d, exist_ok=True)
+    for other in os.listdir(os.path.join(runner.CACHE, "m")):
+        if other != sh_:
+            import shutil
+            shutil.rmtree(os.path.join(runner.CACHE, "m", other), ignore_errors=True)
+
+    def compile_cell(c):
+        op, cat, val, al, a = c
+        name = "_".join(c)
+        okf = os.path.join(d, name + ".ok")
+        errf = os.path.join(d, name + ".err")
+        if os.path.exists(okf):
+            return c, None
+        if os.path.exists(errf):
+            return c, open(errf).read()
+        src = os.path.join(d, name + ".cpp")
+        with open(src, "w") as f:
+            f.write('#include "matrix_cell.hpp"\ntemplate void mx::op_%s<mx::Cfg<mx::%s, mx::%s, %s, mx::%s>>();\n' % (op, cat, val, al, a))
+        r = runner.sh(["g++", "-std=c++17", "-fsyntax-only", "-I" + os.path.join(runner.REPO, "src"), "-I" + runner.HARNESS, src])
+        os.remove(src)
+        if r.returncode != 0:
+            with open(errf, "w") as f:
+                f.write(r.stdout)
+            return c, r.stdout
+        open(okf, "w").close()
+        return c, None
+
+    bad = []
+    with cf.ThreadPoolExecutor(runner.NPROC) as ex:
+        for c, err in ex.map(compile_cell, cells):
+            if err:
+                bad.append((c, err))
+    known = runner.load_known()
+    seen = set()
+    for c, err in bad:
+        first = next((l for l in err.split("\n") if "error" in l), err[:200])
+        kf = None
+        for k in known:
+            if k.get("status") == "known" and k["property"] == "C20" and re.search(k["signature"]["violation"], "_".join(c)):
+                kf = k
+        if kf:
+            if kf["id"] not in seen:
+                seen.add(kf["id"])
+                res["known"].append(kf["what"])
+            continue
+        sig = (c[0], first[-80:])
+        if sig in seen:
+            continue
+        seen.add(sig)
+        path = write_replay_special("C20", tier, seed, "failing-input", ["cell " + " ".join(c)],
+                                    {"cells": [list(c)], "violation": "C20:required-cell-is-ill-formed", "compiler": err[-2500:],
+                                     "source": 'template void mx::op_%s<mx::Cfg<mx::%s, mx::%s, %s, mx::%s>>();' % c})
+        res["violations"].append((path, ""))
+    hist = {}
+    for c in cells:
+        hist[c[1] + "/" + c[2]] = hist.get(c[1] + "/" + c[2], 0) + 1
+    res["coverage"] = {"evaluations": len(cells), "distinct_nontrivial": len(set(cells)), "exhaustive": tier == "thorough",
+                       "samples": [{"cell": list(c)} for c in cells[:4]], "ill_formed_cells": len(bad), "cells_per_category_value": hist}
+    return res
+
+
+import re  # noqa: E402
+SPECIAL["C20"] = special_c20
+
+
+# ------------------------------------------------------------------------------------------ C19
+def build_flags(src_name, out_name, flags):
+    sh_ = runner.source_hash()
+    d = os.path.join(runner.CACHE, "s", sh_)
+    os.makedirs(d, exist_ok=True)
+    b = os.path.join(d, out_name)
+    if os.path.exists(b):
+        return b, None
+    r = runner.sh(["g++", "-std=c++17"] + flags + ["-I" + os.path.join(runner.REPO, "src"), os.path.join(runner.HARNESS, src_name), "-o", b + ".tmp"])
+    if r.returncode != 0:
+        return None, r.stdout
+    os.rename(b + ".tmp", b)
+    return b, None
+
+
+def special_c19(tier, seed, replay):
+    res = {"violations": [], "known": [], "coverage": {}}
+    runs = [("const_ro_O1", ["-O1", "-g"], "write-protection, -O1"), ("const_ro_O0", ["-O0"], "write-protection, -O0"),
+            ("const_ro_tsan", ["-O1", "-g", "-fsanitize=thread", "-DC19_THREADS", "-pthread"], "16 reader threads under ThreadSanitizer")]
+    if tier == "thorough":
+        runs.append(("const_ro_O2", ["-O2"], "write-protection, -O2"))
+        runs.append(("const_ro_tsan_O2", ["-O2", "-fsanitize=thread", "-DC19_THREADS", "-pthread"], "16 reader threads under ThreadSanitizer, -O2"))
+    lines_ok = 0
+    samples = []
+    for name, flags, what in runs:
+        b, err = build_flags("const_ro.cpp", name, flags)
+        if b is None:
+            path = write_replay_special("C19", tier, seed, "no-failing-input-found", [], {"harness-does-not-compile": err[-3000:], "run": what})
+            res["violations"].append((path, " no-failing-input-found"))
+            continue
+        reps = 1 if "tsan" not in name else (2 if tier == "quick" else 6)
+        for _ in range(reps):
+            r = subprocess.run([b], stdout=subprocess.PIPE, stderr=subprocess.PIPE, text=True, timeout=600,
+                               env=dict(os.environ, TSAN_OPTIONS="halt_on_error=0"))
+            out = r.stdout
+            viol = [l for l in out.split("\n") if l.startswith("!viol")]
+            tsan = "WARNING: ThreadSanitizer" in r.stderr
+            good = [l for l in out.split("\n") if l.startswith("ro ") and l.endswith("same=1") or l.startswith("threads ") and l.endswith("results_differ=0")]
+            lines_ok += len(good)
+            if len(samples) < 3:
+                samples.append({"run": what, "lines": good[:3]})
+            if viol or tsan or r.returncode != 0 or not out.rstrip().endswith("end"):
+                detail = {"run": what, "violations": viol, "tsan_report": r.stderr[-2500:] if tsan else "", "exit": r.returncode,
+                          "stdout_tail": out[-600:]}
+                path = write_replay_special("C19", tier, seed, "failing-input", ["%s" % " ".join([name] + flags)], detail)
+                res["violations"].append((path, ""))
+                break
+    res["coverage"] = {"evaluations": lines_ok * 9, "distinct_nontrivial": lines_ok, "samples": samples,
+                       "explanation": "one evaluation = one const operation group executed on write-protected or concurrently shared vectors"}
+    return res
+
+
+SPECIAL["C19"] = special_c19
